@@ -26,6 +26,25 @@ CLAIMED = {
              "database header satisfies the six format rules; every header SQLite writes is accepted; only the documented error "
              "classes occur. Tied by correspondence over field perturbations and per-commit PRAGMA values of WAL histories.",
         design="§9 C17", note=NOTE + "header difference classification across commits is modelled and tied by correspondence (its theorems are partial).", technique=T),
+    "C02": dict(
+        text="Theorems on the WAL model: grouping of valid frames into commit records (nothing lost, each record ends in its only commit "
+             "frame), version count = commit frames, page->frame and page->version indices answer every lookup with the latest frame / "
+             "record (also with duplicate pages in one transaction), frame image offset = file-format offset, stale-salt frames never "
+             "served, accepted logs end in a commit frame. Row-level claims by vh.dump correspondence + per-commit SQLite snapshots, an "
+             "independent checksum-verifying WAL reader for page images, and SQLite's own view of the pair for the newest version.",
+        design="§9 C02", note=NOTE + "partial: the composition 'version k rows = SQLite rows after commit k' is decided by correspondence + snapshots, not by one end-to-end theorem; WAL checksums are not read by the tool.", technique=T),
+    "C05": dict(
+        text="Theorems: the frame count of a file cut at n bytes is the number of whole frames; every frame the truncated parse sees is, field "
+             "for field, the frame at that index of the full file (prefix); records of a prefix ending in a commit frame are a prefix of the "
+             "records; an accepted log ends in a commit frame (no frame of an unfinished transaction reaches the version history). Tied by "
+             "vh.dump correspondence over truncation offsets, per-commit snapshots and SQLite's recovery of the same pair.",
+        design="§9 C02/C05", note=NOTE + "truncation only (torn writes inside a frame are outside the quantifier); partial: version-level prefix theorem not composed end to end.", technique=T),
+    "C03": dict(
+        text="Theorems on the dictionary algebra of VersionParserIterator.next: replaying one commit report on the previous table state gives "
+             "exactly the new state for every rowid (under rowid uniqueness and digest-determines-rowid), every new cell is reported exactly once, "
+             "added/updated disjoint, classification of rowids, deleted = vanished cells whose rowid did not return, unchanged dictionary reports "
+             "nothing. Tied by vh.iter correspondence and replay against SQLite's per-commit snapshots.",
+        design="§9 C03", note=NOTE + "md5 modelled as identity on the hashed bytes (collision-freeness assumed); partial: skip_sound (an untouched b-tree has unchanged cells) is decided by the replay oracle, not by a theorem.", technique=T),
     "C06": dict(
         text="Theorems on the page-layout check: stable sort, telescoping identity, every SQLite-well-formed layout is accepted with "
              "fragment total = header count, accepted layouts tile [content offset, page end) without overlap or gap, strict checking "
